@@ -150,6 +150,11 @@ def collision_programs(ctx):
         hb2["name"] = ha["name"]
         mods[f"cl{i:03d}"] = render.R(c).source(with_glue=False)
         meta[f"cl{i:03d}"] = {"expect": "reject", "kind": kind, "name": ha["name"], "parts": [pa, pb], "overridden": bool(c.get("overrides"))}
+        n_if = len(c["parts"]) - 1
+        if n_if >= 2:
+            # the same colliding contract with its sv::messages declarations in the opposite order: rejected all the same
+            mods[f"cr{i:03d}"] = render.R(c, order={"messages": list(reversed(range(n_if)))}).source(with_glue=False)
+            meta[f"cr{i:03d}"] = dict(meta[f"cl{i:03d}"], messages_order="reversed")
         i += 1
     return mods, meta
 
